@@ -54,15 +54,16 @@ def big_plain_spec():
 
 
 def cli_interleaved_sessions(prop, tag, spec):
-    """the program itself: session `<tag>.ntlm` is quit by a `q` typed while guesses flow (wherever that lands), a second session
+    """the program itself: session `<tag>.sav` is quit by a `q` typed while guesses flow (wherever that lands), a second session
     `<tag>.sha1` - a name that differs only after the last dot - is started and ended, then the first is resumed with --load: what the
     two runs of the first session printed, one after the other, must be the uninterrupted stream"""
     name = f"{tag}rules"
     common.install_ruleset(spec, name)
+    # the quit session is called `<tag>.sav` (a user who takes -s for a file name): its files are `<tag>.sav.sav` / `<tag>.sav.omn`
     full, _, _ = common.run_cli('pcfg_guesser.py', ['-r', name, '-s', f"{tag}.full"], stdin='devnull', timeout=300)
-    a1, e1, _ = common.run_cli_quit('pcfg_guesser.py', ['-r', name, '-s', f"{tag}.ntlm"], timeout=300)
+    a1, e1, _ = common.run_cli_quit('pcfg_guesser.py', ['-r', name, '-s', f"{tag}.sav"], timeout=300)
     common.run_cli('pcfg_guesser.py', ['-r', name, '-s', f"{tag}.sha1", '--limit', '10'], stdin='devnull', timeout=300)
-    a2, e2, _ = common.run_cli('pcfg_guesser.py', ['-s', f"{tag}.ntlm", '--load'], stdin='devnull', timeout=300)
+    a2, e2, _ = common.run_cli('pcfg_guesser.py', ['-s', f"{tag}.sav", '--load'], stdin='devnull', timeout=300)
     wit = {'cli_history': 'quit / other session with a name differing after the last dot / resume', 'spec_kind': tag}
     out = []
     nfull, n1, n2 = full.count(b'\n'), a1.count(b'\n'), a2.count(b'\n')
